@@ -18,8 +18,11 @@ META = dict(
                "graph); wf-only corollaries C08_wf_preserved, C08_wf_adjacency, C08_wf_edge_ends. DbImpl level (theories/DbCascadeProofs.v, full, under the "
                "hypothesis that the db's graph is wf): C08_db_cascade / C08_db_cascade_alias (remove_id / remove by alias of a node never fails; afterwards the node "
                "and every incident edge are no longer elements, their key-value lists are empty, the alias does not resolve, no element appeared, node count - 1), "
-               "C08_db_cascade_edge, C08_db_remove_total, C08_db_mutations_wf (insert_node_db / insert_edge_db / remove_id keep the graph wf; that EVERY query of "
-               "Queries.v, incl. rollback, only reaches the graph through these is not proved as one theorem - it is covered by the differential runs). "
+               "C08_db_cascade_edge, C08_db_remove_total, C08_db_mutations_wf (insert_node_db / insert_edge_db / remove_id keep the graph wf); C08_db_query_wf (the state after ANY query of Queries.v inside a transaction, whatever "
+               "its outcome, has a wf graph, from every state satisfying the joint invariant of C09/C10/C11), C08_db_rollback_wf (every rollback keeps wf: the undo commands reach the "
+               "graph only through insert_node / insert_edge / remove_edge / remove_node with sign-correct ids) and C08_db_history_wf_partial (after EVERY history of queries and "
+               "transactions from the empty database, failing ones and their rollback included, the graph is wf). PARTIAL only in its quantifier: histories whose insert lists have "
+               "distinct keys (the proof goes through the joint invariant) and capacity <= 2^63; histories with a key named twice in one insert list are covered by the differential runs only. "
                "Ids are assumed to carry the sign of "
                "their kind, which DbImpl guarantees via graph_index (C08_raw_negative_endpoint_witness shows the raw GraphImpl API needs it). The model is tied to "
                "/repo on every run by executing generated histories of node/edge inserts and removals (with id reuse, self-loops, parallel edges, failing inserts) on "
